@@ -569,6 +569,19 @@ func ruleBoundedService(c *core.Ctx, a *epAnchors, rule string) {
 		}
 	}
 	if len(roots) == 0 {
+		// the goroutine body as a named function or method (go box.deliverTo(r)), the
+		// Receiver invoked there or in a private helper it calls (deliver(r, mail))
+		for _, call := range core.Calls(mb) {
+			g, isGo := call.(*ssa.Go)
+			if !isGo {
+				continue
+			}
+			if f := g.Call.StaticCallee(); f != nil && invokesReceive(c, f, 0) {
+				roots = append(roots, f)
+			}
+		}
+	}
+	if len(roots) == 0 {
 		c.Undecided(rule, "bus.NewMailBox/serving-goroutine", mb.Pos(), "no goroutine of NewMailBox invokes Receiver.Receive: the serving goroutine was not recognised")
 		return
 	}
@@ -789,4 +802,24 @@ func ruleTraceNotTraced(c *core.Ctx, rule string) {
 	if n == 0 {
 		c.Undecided(rule, "SignalTraceObject callers", token.NoPos, "nothing emits the trace signal")
 	}
+}
+
+// invokesReceive: f, or a private helper it calls statically (two levels),
+// invokes Receiver.Receive.
+func invokesReceive(c *core.Ctx, f *ssa.Function, depth int) bool {
+	if f == nil || depth > 2 || len(f.Blocks) == 0 {
+		return false
+	}
+	for _, g := range core.AnonFuncs(f) {
+		for _, call := range core.Calls(g) {
+			cc := call.Common()
+			if cc.IsInvoke() && cc.Method.Name() == "Receive" {
+				return true
+			}
+			if h := cc.StaticCallee(); h != nil && h != f && isPrivateHelper(c, h) && invokesReceive(c, h, depth+1) {
+				return true
+			}
+		}
+	}
+	return false
 }
